@@ -254,7 +254,7 @@ def _mk_solver(ctx, goal, n_pc, n_assm, timeout_ms, extra=()):
     return s
 
 
-def solve_goal(ctx, goal, n_pc, n_side, n_assm, timeout_ms=None, env=None, lemmas=()):
+def solve_goal(ctx, goal, n_pc, n_side, n_assm, timeout_ms=None, env=None, lemmas=(), cheap_only=False):
     """Decide one obligation.  First a plain query; if z3 gives up, a sound case split over the
     small-domain variables occurring in the goal (all cases must be unsat; any sat case is a model)."""
     import z3
@@ -264,12 +264,14 @@ def solve_goal(ctx, goal, n_pc, n_side, n_assm, timeout_ms=None, env=None, lemma
     r = str(s.check())
     if r != 'unknown':
         return r, (s.model() if r == 'sat' else None), time.time() - t0, s, 0
+    if cheap_only:
+        return r, None, time.time() - t0, s, 0
     # bounded problem over a small domain: bit-blast (sound width inference, see vf/int2bv.py)
     if env is not None:
         from vf import int2bv
         bounds = {n: (lo, hi - 1) for n, (lo, hi) in env.vars.items()}
         bounds.update(ctx.aux_bounds)
-        rb, mb, W = int2bv.solve_bv(list(s.assertions()), bounds, timeout_ms=total)
+        rb, mb, W = int2bv.solve_bv(list(s.assertions()), bounds, timeout_ms=min(total, 20000))
         if rb == 'unsat':
             return 'unsat', None, time.time() - t0, s, -1
         if rb == 'sat':
@@ -295,7 +297,7 @@ def solve_goal(ctx, goal, n_pc, n_side, n_assm, timeout_ms=None, env=None, lemma
         r = str(s.check())
         return r, (s.model() if r == 'sat' else None), time.time() - t0, s, 0
     import itertools
-    per_case = max(2000, total // 4)
+    per_case = 3000
     nsub = 0
     verdict = 'unsat'
     for combo in itertools.product(*[range(*doms[n]) for n in chosen]):
@@ -307,7 +309,7 @@ def solve_goal(ctx, goal, n_pc, n_side, n_assm, timeout_ms=None, env=None, lemma
             return 'sat', sc.model(), time.time() - t0, sc, nsub
         if rc != 'unsat':
             verdict = 'unknown'
-        if (time.time() - t0) * 1000 > 6 * total:
+        if (time.time() - t0) * 1000 > 2 * total:
             verdict = 'unknown'
             break
     return verdict, None, time.time() - t0, s, nsub
@@ -348,7 +350,14 @@ def run_sym(fn, params=None, seed=0, max_paths=5000, n_validate=2, goal_timeout_
                 if is_lemma and seen[key] == 'unsat':
                     proved.append(goal)
                 continue
-            r, model, dt, s, nsub = solve_goal(ctx, goal, n_pc, n_side, n_assm, goal_timeout_ms, env, proved)
+            enough = len(res['models']) >= 3
+            r, model, dt, s, nsub = solve_goal(ctx, goal, n_pc, n_side, n_assm, goal_timeout_ms, env, proved, cheap_only=True)
+            w = None
+            if r == 'unknown' and witness_search and not enough:
+                w = _witness(ctx, goal, n_pc, n_assm, env, rnd)
+            if r == 'unknown' and w is None and not enough:
+                r, model, dt2, s, nsub = solve_goal(ctx, goal, n_pc, n_side, n_assm, goal_timeout_ms, env, proved)
+                dt += dt2
             seen[key] = r
             if is_lemma and r == 'unsat':
                 proved.append(goal)
@@ -365,9 +374,8 @@ def run_sym(fn, params=None, seed=0, max_paths=5000, n_validate=2, goal_timeout_
                 if len(res['models']) < 3:
                     res['models'].append(dict(label=label, path=pi, values=_model_values(model, env),
                                               observed=_eval_obs(model, observed)))
-            elif r == 'unknown' and witness_search:
-                w = _witness(ctx, goal, n_pc, n_assm, env, rnd)
-                if w is not None and len(res['models']) < 3:
+            elif r == 'unknown' and w is not None:
+                if len(res['models']) < 3:
                     res['models'].append(dict(label=label, path=pi, values=w, observed=[], from_witness_search=True))
         if pi in val_paths:
             r, m = _random_model(ctx, env, rnd)
@@ -411,8 +419,14 @@ def _witness(ctx, goal, n_pc, n_assm, env, rnd, tries=300):
     names = list(env.vars)
     conj = z3.And(*ctx.assumptions[:n_assm], *ctx.pc[:n_pc], *ctx.side, z3.Not(goal))
     aux = [v for v in _free_vars(conj) if str(v) not in env.vars]
+    def pick(n):
+        lo, hi = env.vars[n]
+        r = rnd.random()
+        if r < 0.5:
+            return rnd.choice([lo, hi - 1, min(lo + 1, hi - 1), max(hi - 2, lo), (lo + hi) // 2, 0 if lo <= 0 < hi else lo])
+        return rnd.randrange(lo, hi)
     for _ in range(tries):
-        vals = {n: rnd.randrange(*env.vars[n]) for n in names}
+        vals = {n: pick(n) for n in names}
         sub = [(z3.Int(n), z3.IntVal(v)) for n, v in vals.items()]
         f = z3.simplify(z3.substitute(conj, *sub))
         if z3.is_false(f):
